@@ -117,7 +117,7 @@ def _stat_fold(obj, kind):
 
     if isinstance(obj, pd.DataFrame):
         return pd.Series({c: one(obj[c]) for c in obj.columns}, dtype=object)
-    return one(obj)
+    return one(list(obj))
 
 
 class SymFrame(pd.DataFrame):
@@ -132,6 +132,32 @@ class SymFrame(pd.DataFrame):
 
     def std(self, *a, **kw):
         return _stat_fold(self, "std")
+
+
+class SymSeries(pd.Series):
+    """Series whose mean()/std() fold symbolically (one observable per entry; std of a single entry is NaN as in pandas)."""
+
+    @property
+    def _constructor(self):
+        return SymSeries
+
+    def mean(self, *a, **kw):
+        return _stat_fold(list(self), "mean") if len(self) else float("nan")
+
+    def std(self, *a, **kw):
+        return _stat_fold(list(self), "std") if len(self) > 1 else float("nan")
+
+
+def guarded_scale(std):
+    """The scale of the standard scaling: a spread that is zero or undefined (one observable, a constant column) is replaced by 1."""
+    def one(v):
+        if isinstance(v, float) and v != v:
+            return 1.0
+        return v if bool(v > 0) else 1.0
+
+    if isinstance(std, pd.Series):
+        return pd.Series({c: one(std[c]) for c in std.index}, dtype=object)
+    return one(std)
 
 
 class _OptRes(dict):
@@ -211,7 +237,7 @@ class FitRun(Scenario):
         if self.kind == "tc":
             data = (SymFrame if sym and self.scaled else pd.DataFrame)({"x": [ctx.real("obs0"), ctx.real("obs1")]}, index=tps, dtype=dt)
         elif self.kind == "ss":
-            data = pd.Series({vnames[0]: ctx.real("obs0")}, dtype=dt)  # fluxes (k * x) would make the comparison of two losses non-linear
+            data = (SymSeries if sym and self.scaled else pd.Series)({vnames[0]: ctx.real("obs0")}, dtype=dt)  # fluxes (k * x) would make the comparison of two losses non-linear
         else:
             data = pd.DataFrame({"x": [ctx.real("obs0"), ctx.real("obs1")]}, index=tps, dtype=dt)
             protocol = make_protocol([(0.5, {"k": ctx.real("st0")}), (0.5, {"k": ctx.real("st1")})])
@@ -261,7 +287,7 @@ class FitRun(Scenario):
                 b = fm.flow({"k": ctx.real("st1")}, a, 0.5, 1.0, sym)
                 pred = pd.DataFrame({"x": [a[0], b[0]]}, index=tps, dtype=dt)
             if self.scaled:
-                mean, std = data.mean(), data.std()
+                mean, std = data.mean(), guarded_scale(data.std())
                 return loss_fn((data - mean) / std, (pred - mean) / std)
             return loss_fn(data, pred)
 
@@ -409,6 +435,9 @@ def scenarios(tier, seed):
     scs.append(FitRun("tc", ("k",), False, True, loss="mean_squared"))
     scs.append(FitRun("tc", ("x", "k"), False, True, loss="mean_squared"))
     scs.append(FitRun("tc", ("k",), True, True, loss="mae"))
+    # the default scaling with a single observable (its spread is undefined): the fit still measures the discrepancy
+    scs.append(FitRun("ss", ("k",), False, True, loss="mean_squared"))
+    scs.append(FitRun("ss", ("x",), False, True))
     # joint fits: two models with their own data, initial values and (optionally) loss; the objective is the sum of the members' losses
     for kind in ("tc", "ss"):
         scs.append(JointRun(kind, ("k",)))
